@@ -755,7 +755,7 @@ class Sim:
 
     def build(self, op):
         g = self.g
-        targets = self.targets_for(op['sel'])
+        targets = op.get('targets') or self.targets_for(op['sel'])
         faults = None
         if op.get('faults'):
             cmds = self.cmd_edges()
@@ -971,6 +971,53 @@ def run_metamorphic(simA, ops, transform=None, prop='C10', what='declared-implic
                 simA.labels.add('dyndep_built_and_adds_generated_input')
     finally:
         simB.close()
+
+
+def run_late_targets(sim, ops):
+    """work that enters the plan in the middle of a build: after the history, the producer of every dyndep file and the
+    statements reached only through what those files add (incl. validations their producers request) are made dirty,
+    then each bound statement is requested *alone* (so that nothing of this is a target of its own) with all oracles on,
+    followed by the usual second run"""
+    if not sim.establish():
+        return
+    for op in sim.expand(ops):
+        if sim.stop:
+            return
+        if op['op'] == 'build':
+            if not op.get('faults'):
+                sim.build(op)
+        else:
+            sim.apply_change(op)
+    if sim.findings or sim.stop:
+        return
+    g = sim.g
+    bound = [e for e in g['edges'] if e.get('dd') and g.get('dd_files', {}).get(e['dd'], {}).get('produced')]
+    if not bound:
+        return
+    n = 0
+    for e in bound[:3]:
+        if sim.stop or any(not f['known'] for f in sim.findings):
+            return
+        # dirty: the dyndep file's producer (so the file is loaded mid-build) and everything the file adds
+        for x in g['edges']:
+            if x.get('is_dd_producer') and key(x) == e['dd']:
+                sim.write(x['exp'][0], sim.new_content(x['exp'][0], 7 + n))
+        late = []
+        for i in models.dd_inputs(g, e):
+            pe = producer_map(g).get(i)
+            if pe is not None:
+                late.append(pe)
+                late += [producer_map(g)[v] for v in pe.get('vals', []) if producer_map(g).get(v) is not None]
+        for x in late:
+            srcs_ = [i for i in x['exp'] + x['imp'] if i in g['srcs']]
+            if srcs_:
+                sim.write(srcs_[0], sim.new_content(srcs_[0], 8 + n))
+        if late:
+            sim.labels.add('late_planned_work')
+        if any(x.get('vals') for x in late):
+            sim.labels.add('late_planned_validation')
+        n += 1
+        sim.build(dict(op='build', sel=0, j=1 + n % 2, k=1, sched=[], mid=[], targets=[key(e)]))
 
 
 # ---------------------------------------------------------------------------------------------- C07 crash / interrupt
